@@ -27,9 +27,10 @@ func runC12(p *core.Prog, r *core.Result) {
 		"R12.3 a target's record path is work/<kind>s/<one URL-escaped component derived from package and name>",
 		"R12.4 the project's target and module tables are keyed only by printed labels ((*Label).String())",
 		"R12.6 (necessary for canonicity) every package stored in a Label is canonical by construction: a Clean/Join result, another label's package, \"\" or \"//\"",
+		"R12.7 (parsing never crashes) every index and slice expression of package label is in range on every path, decided by a difference-bound abstract interpretation of the SSA (loop invariants by widening/narrowing, branch facts, immutable string contents, case analysis over short-circuit diamonds); the lazybuf methods are excepted by a frozen table (their safety is the caller-side invariant w <= r of Clean)",
 		"R12.5 (part of 'parsing never crashes') every string slice in package label whose bound derives from an Index*/LastIndex* result on the sliced string is in range under the established found-ness fact",
 	}
-	r.NotDecided = []string{"print/parse round trip and canonicity of labels for all strings (behavioural)", "panic-freedom of label.Clean/Join/Split and the lazybuf loops for all strings (needs relational loop invariants; listed as information by R12.5)"}
+	r.NotDecided = []string{"print/parse round trip and canonicity of labels for all strings (behavioural)", "in-range-ness of the seven index/slice expressions inside the lazybuf methods (needs the caller-side invariant 'bytes written <= bytes read' of Clean; listed as information by R12.7)", "panics other than index/slice out of range in package label (nil map writes, failed assertions: none present today)"}
 	bt := need(p, r, "R12.1", "", "Project", "builtin_target")
 	sl := need(p, r, "R12.1", "", "", "sourceLabel")
 	rsp := need(p, r, "R12.1", "", "", "repoSourcePath")
@@ -285,6 +286,9 @@ func runC12(p *core.Prog, r *core.Result) {
 
 	// ---- R12.6 canonical by construction
 	checkCanonicalByConstruction(p, r)
+
+	// ---- R12.7 every index / slice expression of package label is in range (zone abstract interpretation)
+	checkLabelBounds(p, r)
 
 	// LoadTarget re-parses and re-prints the raw label before the lookup
 	if lt := need(p, r, "R12.4", "", "Project", "LoadTarget"); lt != nil {
@@ -837,4 +841,74 @@ func checkCanonicalByConstruction(p *core.Prog, r *core.Result) {
 		})
 	}
 	r.Floor("R12.6", n, 3, "assignments of Label.Package in the module")
+}
+
+
+// labelBoundsExceptions: index/slice sites of package label that the zone analysis cannot decide, with the reason
+// they are safe (confirmed by reading). Keyed by function and source expression.
+var labelBoundsExceptions = map[string]string{
+	"(*label.lazybuf).index|b.buf[i]":    "called by nobody today; i < w <= len(buf) is the caller's obligation",
+	"(*label.lazybuf).index|b.s[i]":      "called by nobody today; i < w <= len(s) is the caller's obligation",
+	"(*label.lazybuf).append|b.s[b.w]":   "guarded by b.w < len(b.s); b.w >= 0 because it starts at 0 and is only incremented",
+	"(*label.lazybuf).append|b.s[:b.w]":  "w <= len(s): Clean appends at most one byte per byte read (w <= r <= len(s))",
+	"(*label.lazybuf).append|b.buf[b.w]": "len(buf) == len(s) and w < len(s) when a byte is appended: Clean writes no more bytes than it has read",
+	"(*label.lazybuf).string|b.s[:b.w]":  "w <= len(s) (as above)",
+	"(*label.lazybuf).string|b.buf[:b.w]": "w <= len(buf) == len(s) (as above)",
+}
+
+// checkLabelBounds implements R12.7.
+func checkLabelBounds(p *core.Prog, r *core.Result) {
+	lp := p.Pkg("label")
+	if lp == nil {
+		r.Unk("R12.7", "anchor:label", "-", "package label not found")
+		return
+	}
+	n, nProved := 0, 0
+	used := map[string]bool{}
+	for _, fn := range p.ModuleFuncs() {
+		if fn.Pkg != lp || fn.Blocks == nil {
+			continue
+		}
+		res := p.ZoneAnalyze(fn)
+		if res == nil {
+			continue
+		}
+		cnt := map[string]int{}
+		short := strings.Replace(fname(fn), core.ModulePath+"/", "", 1)
+		for _, s := range res.Sites {
+			n++
+			expr := s.Expr
+			if expr == "" {
+				expr = "<" + s.Kind + " without source expression>"
+			}
+			key := short + "|" + expr
+			cnt[key]++
+			construct := fmt.Sprintf("%s#%s:%s", short, s.Kind, expr)
+			if cnt[key] > 1 {
+				construct += fmt.Sprintf("#%d", cnt[key])
+			}
+			switch {
+			case s.Proved && s.Dead:
+				nProved++
+				r.OK("R12.7", construct, p.InstrPos(s.Instr), "unreachable under the branch facts")
+			case s.Proved:
+				nProved++
+				how := "in range on every path"
+				if s.Partitioned {
+					how += " (by case analysis over the edges of a dominating merge block)"
+				}
+				r.OK("R12.7", construct, p.InstrPos(s.Instr), how)
+			default:
+				if why, ok := labelBoundsExceptions[key]; ok {
+					used[key] = true
+					r.Note("R12.7", construct, p.InstrPos(s.Instr), "not decided by the analysis (%s); accepted by reading: %s", s.Missing, why)
+					continue
+				}
+				r.Unk("R12.7", construct, p.InstrPos(s.Instr), "cannot show %s: for some label string this expression may be out of range and parsing panics", s.Missing)
+			}
+		}
+	}
+	r.Floor("R12.7", nProved, 20, "index/slice expressions of package label proved in range")
+	r.Analysed["label_index_sites"] = n
+	r.Analysed["label_index_sites_proved"] = nProved
 }
